@@ -2,6 +2,7 @@
 // own TSan-ABI runtime): the real frigg spinlocks and lock guards.
 #include <new>
 #include <utility>
+#include <type_traits>
 #include <frg/spinlock.hpp>
 #include <frg/mutex.hpp>
 #include <frg/qs.hpp>
@@ -35,6 +36,10 @@ static int guard_op(int op, void *a, void *b, SimMutex *m0) {
 	case GO_DESTROY: ga->~G(); return 0;
 	case GO_IS_LOCKED: return ga->is_locked();
 	case GO_PROTECTS: return ga->protects(m);
+	case GO_GUARD_LOCK: // the frg::guard() helpers return a unique_lock by value (move construction from a temporary)
+		if constexpr (std::is_same_v<G, frg::unique_lock<ThrowingMutex>>) { new (a) G(frg::guard(m)); return 0; } else return -1;
+	case GO_GUARD_DEFER:
+		if constexpr (std::is_same_v<G, frg::unique_lock<ThrowingMutex>>) { new (a) G(frg::guard(frg::dont_lock, m)); return 0; } else return -1;
 	}
 	return -1;
 }
